@@ -315,6 +315,130 @@ def unit_interp_generic(method):
     return kit.run_unit("any_size[%s]" % method, run)
 
 
+class _KSeq(object):
+    """the slope vector: result of the recorded product (solved matrix) @ y"""
+
+    def __init__(self, F):
+        self.decl = F
+
+    def __getitem__(self, i):
+        return self.decl(i if isinstance(i, z3.ExprRef) else z3.IntVal(i), z3.IntVal(0))
+
+
+def any_size_slope_conditions(c, tag, bc, x, y, n, funcs, periodic_values=True):
+    """EVERY number of knots (LAM domain): the slopes K = R y, with R the recorded solution of  S R = M  built by the real
+    _get_spline_mat_inv on knots of symbolic length, make S'' continuous at every interior knot and satisfy the boundary
+    condition.  Row i of  S K = M y  (matrix associativity, trusted) is written out from the few non-zero columns of the
+    row (proved for a generic column); the spline conditions then follow from one or two rows, as in slope_conditions."""
+    from pydv import lam
+    from props import anysize as A
+    solves = c.ghost.get("lam_solves", [])
+    c.check(tag + ":slopes_come_from_the_spline_system", len(solves) == 1, detail="%d systems solved" % len(solves))
+    if len(solves) != 1:
+        return None
+    rec = solves[0]
+    S = lambda r_, c_: rec["A"]((r_, c_))
+    M = lambda r_, c_: rec["B"]((r_, c_))
+    R = rec["R"]
+    gi, gc = z3.Int("gK"), z3.Int("gKc")
+    Kf = None
+    for sr in c.ghost.get("lam_sums", []):
+        if len(sr["out_shape"]) == 2 and z3.eq(z3.simplify(sr["summand"]((gi, z3.IntVal(0)), gc)), z3.simplify(R(gi, gc) * y.fn((gc,)))):
+            Kf = sr["f"]
+    c.check(tag + ":slopes_are_the_solved_matrix_times_the_sample_values", Kf is not None)
+    if Kf is None:
+        return None
+    K = _KSeq(Kf)
+    X, Y = A.Seq(lambda i: x.fn((i,))), A.Seq(lambda i: y.fn((i,)))
+    fs = dict(funcs)
+    fs[Kf.name()] = Kf
+    i = z3.Int("i")
+    base = [n >= 3]
+
+    def row_equation(nm, row, cands, hyps):
+        """the written-out row: sum over the candidate columns; obligations: nothing outside the candidates"""
+        gS = lambda a: S(row, a) * K[a]
+        gM = lambda a: M(row, a) * Y[a]
+        A.finite_sum(c, tag + nm, gS, cands, n, hyps, [], "row_of_the_slope_matrix")
+        A.finite_sum(c, tag + nm, gM, cands, n, hyps, [], "row_of_the_right_hand_side_matrix")
+        return lam.dedupe_sum(gS, cands, n) == lam.dedupe_sum(gM, cands, n)
+
+    def d(j, order, at_right):
+        q = X[j + 1] if at_right else X[j]
+        return hermite(X[j], X[j + 1], Y[j], Y[j + 1], K[j], K[j + 1], q, order)
+
+    def pts(pairs):
+        return [(z3.simplify(p), lb) for p, lb in pairs]
+    # interior knots
+    hyps = base + [i >= 1, i <= n - 2]
+    eq_i = row_equation("[interior row]", i, [i - 1, i, i + 1], hyps)
+    P3 = pts([(i - 1, "a"), (i, "b"), (i + 1, "c")])
+    A.canon_prove(c, tag + ":second_derivative_continuous_at_interior_knots", d(i - 1, 2, True) == d(i, 2, False), hyps, P3, fs,
+                  [eq_i], widths=("x", ["a", "b", "c"]))
+    # the two ends
+    zero, last = z3.IntVal(0), n - 1
+    if bc in ("natural", "clamped"):
+        cf, cl = [zero, z3.IntVal(1)], [n - 2, n - 1]
+    elif bc == "not-a-knot":
+        cf, cl = [zero, z3.IntVal(1), z3.IntVal(2)], [n - 3, n - 2, n - 1]
+    else:
+        cf, cl = [zero, z3.IntVal(1), n - 2], [z3.IntVal(1), n - 2, n - 1]
+    eq_f = row_equation("[first row]", zero, cf, base)
+    eq_l = row_equation("[last row]", last, cl, base)
+    PF = pts([(zero, "f0"), (z3.IntVal(1), "f1"), (z3.IntVal(2), "f2")])
+    PL = pts([(n - 3, "l3"), (n - 2, "l2"), (n - 1, "l1")])
+    if bc == "natural":
+        A.canon_prove(c, tag + ":natural:second_derivative_zero_at_the_first_knot", d(zero, 2, False) == 0, base, PF, fs, [eq_f], widths=("x", ["f0", "f1", "f2"]))
+        A.canon_prove(c, tag + ":natural:second_derivative_zero_at_the_last_knot", d(n - 2, 2, True) == 0, base, PL, fs, [eq_l], widths=("x", ["l3", "l2", "l1"]))
+    elif bc == "clamped":
+        A.canon_prove(c, tag + ":clamped:slope_zero_at_the_first_knot", K[zero] == 0, base, PF, fs, [eq_f], widths=("x", ["f0", "f1", "f2"]))
+        A.canon_prove(c, tag + ":clamped:slope_zero_at_the_last_knot", K[last] == 0, base, PL, fs, [eq_l], widths=("x", ["l3", "l2", "l1"]))
+    elif bc == "not-a-knot":
+        A.canon_prove(c, tag + ":not-a-knot:third_derivative_continuous_at_the_second_knot", d(zero, 3, False) == d(z3.IntVal(1), 3, False), base, PF, fs,
+                      [eq_f], widths=("x", ["f0", "f1", "f2"]))
+        A.canon_prove(c, tag + ":not-a-knot:third_derivative_continuous_at_the_last_but_one_knot", d(n - 3, 3, False) == d(n - 2, 3, False), base, PL, fs,
+                      [eq_l], widths=("x", ["l3", "l2", "l1"]))
+    else:
+        per = [Y[zero] == Y[last]]
+        for nm, hyp, P, labels, sb in (("[3 knots]", [n == 3], PF, ["f0", "f1", "f2"], [(n, z3.IntVal(3))]),
+                                       ("[4 or more knots]", [n >= 4], pts([(zero, "f0"), (z3.IntVal(1), "f1"), (n - 2, "l2"), (n - 1, "l1")]),
+                                        ["f0", "f1", "l2", "l1"], None)):
+            A.canon_prove(c, tag + ":periodic:first_derivative_agrees_at_the_two_ends" + nm, K[zero] == K[last], base + hyp, P, fs,
+                          [eq_f, eq_l] + per, widths=("x", labels), subst=sb)
+            A.canon_prove(c, tag + ":periodic:second_derivative_agrees_at_the_two_ends" + nm, d(zero, 2, False) == d(n - 2, 2, True), base + hyp, P, fs,
+                          [eq_f, eq_l] + per, widths=("x", labels), subst=sb)
+    A.sum_lemmas(c, (2, 3))
+    return K
+
+
+def unit_slopes_any_size(bc):
+    """CubicSpline1D.__init__ on knots and values of symbolic length: the slope system for EVERY number of knots"""
+    from pydv import lam
+    from pydv.core import fresh_int
+    from props import anysize as A
+
+    def run():
+        c = ctx()
+        nr = fresh_int("nr")
+        n = nr.e
+        c.assume(n >= 3)
+        x, y = lam.sym("x", nr), lam.sym("y", nr)
+        tag = "any_size[slopes/%s]" % bc
+        with A.lam_world() as m:
+            with kit.patched(m["i1"], "check_periodic_value", lambda y_: None):     # its contract: y[0] == y[-1] (a precondition below)
+                ok, obj = kit.call_or_fail(c, tag + ":constructor_does_not_raise", lambda: m["i1"].CubicSpline1D(x, y, bc_type=bc))
+        if not ok:
+            return
+        K = any_size_slope_conditions(c, tag, bc, x, y, n, {"x": x.uf, "y": y.uf})
+        if K is None:
+            return
+        # the slopes the evaluation uses are these
+        p = z3.Int("p")
+        c.check(tag + ":the_evaluation_uses_these_slopes", isinstance(obj.ks, lam.LT) and z3.eq(z3.simplify(obj.ks.fn((p,))), z3.simplify(K[p])))
+        c.prove("canary", z3.BoolVal(False), kind="canary")
+    return kit.run_unit("any_size[slopes/%s]" % bc, run)
+
+
 def unit_no_y(method):
     def run():
         c = ctx()
@@ -674,6 +798,8 @@ def units(tier):
         for y_at in ("init", "call"):
             add("batched_y[%s,y_at_%s]" % (mth, y_at), lambda mth=mth, y_at=y_at: unit_batched(mth, y_at))
         add("reuse[%s]" % mth, lambda mth=mth: unit_reuse(mth))
+    for bc in ("natural", "clamped", "not-a-knot", "periodic"):
+        add("any_size[slopes/%s]" % bc, lambda bc=bc: unit_slopes_any_size(bc))
     for bc in ("natural", "clamped", "not-a-knot"):
         add("batched_x[cspline/%s]" % bc, lambda bc=bc: unit_batched_x(bc))
     for mth, mode in (("linear", "nan"), ("linear", "constant"), ("linear", "tensor_constant"), ("linear", "callable"), ("linear", "bound"),
